@@ -52,6 +52,7 @@ type Decoder struct {
 	side      ConnSide
 	err       error
 	literal   bool
+	litHeader bool // the "{" of a literal header has been read, the header is not complete
 	crlf      bool
 	listDepth int
 }
@@ -255,13 +256,17 @@ func (dec *Decoder) DiscardUntilByte(untilCh byte) {
 // non-synchronizing literal: the bytes which follow the line are then literal
 // data the peer has already sent, not the beginning of a new command.
 func (dec *Decoder) DiscardLine() (nonSyncLiteral bool) {
+	// A literal header whose size could not be read (e.g. a number which
+	// overflows) has been consumed up to its "+}"
+	partialHeader := dec.litHeader
+	dec.litHeader = false
 	if dec.crlf {
 		return false
 	}
 	var text string
 	dec.Text(&text)
 	dec.CRLF()
-	return endsWithNonSyncLiteral(text)
+	return endsWithNonSyncLiteral(text) || (partialHeader && strings.HasSuffix(text, "+}"))
 }
 
 func endsWithNonSyncLiteral(text string) bool {
@@ -601,6 +606,7 @@ func (dec *Decoder) LiteralReader() (lit *LiteralReader, nonSync, ok bool) {
 	if !dec.Special('{') {
 		return nil, false, false
 	}
+	dec.litHeader = true
 	var size int64
 	if !dec.ExpectNumber64(&size) {
 		return nil, false, false
@@ -611,6 +617,7 @@ func (dec *Decoder) LiteralReader() (lit *LiteralReader, nonSync, ok bool) {
 	if !dec.ExpectSpecial('}') || !dec.ExpectCRLF() {
 		return nil, false, false
 	}
+	dec.litHeader = false
 	dec.literal = true
 	lit = &LiteralReader{
 		dec:  dec,
